@@ -112,6 +112,24 @@ Theorem hook_to_native_conserves :
 Proof. exact hook_to_native_effect. Qed.
 Print Assumptions hook_to_native_conserves.
 
+(** ONE EVM transaction whose receipt carries several SwapToNative events (a batching contract calling
+    swapToNative repeatedly, on the same or on different bound contracts): the hook processes EVERY
+    event — a successful transaction is exactly the run of its events, one after the other — so for
+    every token bound to a contract native supply + ERC20 supply is what it was; and any failing event
+    fails the whole transaction ([do_hook_multi] is a chain of [bind]s). *)
+Theorem hook_multi_is_the_run_of_its_events :
+  forall s evs s', exec s (HookMulti evs) = ROk s' -> run s (map ev_msg evs) = s'.
+Proof. exact hook_multi_exec_run. Qed.
+Print Assumptions hook_multi_is_the_run_of_its_events.
+
+Theorem hook_multi_conserves :
+  forall s evs s' d t,
+    RegInv s -> exec s (HookMulti evs) = ROk s' -> token_by_minunit s d = Some t -> t_contract t <> 0 ->
+    token_by_minunit s' d = Some t
+    /\ supply_of s' d + erc20_total s' (t_contract t) = supply_of s d + erc20_total s (t_contract t).
+Proof. exact hook_multi_conserve. Qed.
+Print Assumptions hook_multi_conserves.
+
 (** A failed message (conversion or any other) changes neither side.  [step] is the transactional
     semantics of a message: effects of a failing handler are discarded, which is what the cached
     multistore does for the bank and what a journalled EVM does for the contract (assumption
@@ -130,7 +148,7 @@ Print Assumptions registry_invariant_reachable.
 
 (** Sequences mixing conversions in both directions — messages and swap-to-native hook calls —
     with ERC20 deployments for other tokens (existing or IBC-style new ones) and implementation
-    upgrades ([conversion] = ToErc20 / FromErc20 / HookToNative / Deploy / UpgradeErc20 / EvmMode),
+    upgrades ([conversion] = ToErc20 / FromErc20 / HookToNative / HookMulti / Deploy / UpgradeErc20 / EvmMode),
     successful and failed, for any tokens, by any senders to any receivers, with the EVM double
     misbehaving in any way: for every token bound to a contract, native supply + ERC20 supply is
     what it was. *)
@@ -243,14 +261,16 @@ Example c10_history_nonvacuous :
                 EvmMode 0; FromErc20 1 101 (6, 4) 5;  (* blocked receiver: fails after the ERC20 burn *)
                 ToErc20 1 1 (7, 4) 30;
                 HookToNative 1 1 0 1000000;           (* holder 1 swaps 1 unit back to actor 0 through the hook: ok *)
-                HookToNative 1 1 101 5 ] in           (* blocked receiver: fails after the contract's burn *)
+                HookToNative 1 1 101 5;               (* blocked receiver: fails after the contract's burn *)
+                HookMulti [(1, 1, 0, 7); (2, 1, 1, 3); (1, 1, 1, 11)];   (* three events, two contracts, one transaction: ok *)
+                HookMulti [(1, 1, 0, 7); (2, 1, 1, 28)] ] in  (* the second event exceeds the holder's balance: all of it fails *)
   let s1 := run s0 ms0 in
   let s2 := run s1 conv in
   forallb conversion conv = true
-  /\ codes s0 ms0 = [0; 0; 0; 0] /\ codes s1 conv = [0; 1; 0; 1; 0; 1; 0; 1; 0; 0; 1]
-  /\ supply_of s1 (6, 4) = 100000000 /\ supply_of s2 (6, 4) = 76000000 /\ erc20_total s2 1 = 24000000
-  /\ supply_of s2 (7, 4) = 70 /\ erc20_total s2 2 = 30
+  /\ codes s0 ms0 = [0; 0; 0; 0] /\ codes s1 conv = [0; 1; 0; 1; 0; 1; 0; 1; 0; 0; 1; 0; 1]
+  /\ supply_of s1 (6, 4) = 100000000 /\ supply_of s2 (6, 4) = 76000018 /\ erc20_total s2 1 = 23999982
+  /\ supply_of s2 (7, 4) = 73 /\ erc20_total s2 2 = 27
   /\ codes s2 [SwapFee 0 (-2) (6, 4) 2500001] = [0]
-  /\ supply_of (run s2 [SwapFee 0 (-2) (6, 4) 2500001]) (6, 4) = 76000000 - 2000000
-  /\ supply_of (run s2 [SwapFee 0 (-2) (6, 4) 2500001]) (7, 4) = 70 + 1.
+  /\ supply_of (run s2 [SwapFee 0 (-2) (6, 4) 2500001]) (6, 4) = 76000018 - 2000000
+  /\ supply_of (run s2 [SwapFee 0 (-2) (6, 4) 2500001]) (7, 4) = 73 + 1.
 Proof. cbv zeta. repeat split; vm_compute; reflexivity. Qed.
